@@ -9,6 +9,7 @@ import (
 	"os"
 	"path/filepath"
 	"strconv"
+	"strings"
 
 	wt "github.com/hnakamur/whispertool"
 	wcmd "github.com/hnakamur/whispertool/cmd"
@@ -475,6 +476,33 @@ func runC07(c *fw.Ctx) {
 				c.Count("evaluations", 1)
 				if sig, desc := c19ListStr(str); sig != "" {
 					c.Violate("C07/ParseArchiveInfoList/accepted-invalid/"+sig[len("C19/list/"):], desc, len(str), c07Case{}, "")
+				}
+			}
+		}
+	}
+	// zero steps and zero retentions, in every unit and at every position of a list of one to three archives
+	if c.Shard == 0 {
+		base := []string{"1s:1m", "1m:1h", "1h:1d"}
+		for _, u := range []string{"s", "m", "h", "d", "w", "y"} {
+			for n := 1; n <= 3; n++ {
+				for pos := 0; pos < n; pos++ {
+					ret := strings.SplitN(base[pos], ":", 2)[1]
+					st := strings.SplitN(base[pos], ":", 2)[0]
+					for _, bad := range []string{"0" + u + ":" + ret, st + ":0" + u, "0" + u + ":0" + u} {
+						parts := append([]string{}, base[:n]...)
+						parts[pos] = bad
+						str := strings.Join(parts, ",")
+						c.Count("evaluations", 1)
+						if sig, desc := c19ListStr(str); sig != "" {
+							c.Violate("C07/ParseArchiveInfoList/zero-step-or-retention/"+sig[len("C19/list/"):], desc, len(str), c07Case{}, "")
+						}
+						fs := flag.NewFlagSet("x", flag.ContinueOnError)
+						fs.SetOutput(io.Discard)
+						g := &wcmd.GenerateCommand{}
+						if p, txt := fw.Guard(func() { g.Parse(fs, []string{"-retentions", str, "-agg-method", "sum", "-dest", "x"}) }); p || g.ArchiveInfoList != nil {
+							c.Violate("C07/flag-retentions/zero-step-or-retention", fmt.Sprintf("-retentions %q: accepted=%v %s", str, g.ArchiveInfoList != nil, firstLine(txt)), len(str), c07Case{}, "")
+						}
+					}
 				}
 			}
 		}
